@@ -122,3 +122,11 @@ Example C11_factor_wraps :
   let c := {| new_h := 0; halv_h := 0; halv_int := 1; old_reward := 0 |} in
   cfg_okb c = false /\ block_reward c 4294967294 = Some 0 /\ block_reward c 4294967295 = Some 304414003.
 Proof. vm_compute. repeat split; reflexivity. Qed.
+
+(* TEST (not a proof of the general statement): the split does not wrap int64
+   for fee totals 2^k - 1, 2^k, 2^k + 1, k = 0..61, on top of the mainnet
+   subsidies 304414003 and 0. *)
+Example C11_split_fits_sweep :
+  forallb (fun k => forallb (fun d => forallb (fun r => split_fits (2 ^ Z.of_nat k + d) r)
+     [0; 304414003]) [-1; 0; 1]) (seq 0 62) = true.
+Proof. vm_compute. reflexivity. Qed.
